@@ -19,6 +19,8 @@
 (*                                                                         *)
 (*   {"op":"new","id":i,"ord":o}             T::new(), T of order o        *)
 (*   {"op":"add","id":i,"m":[s,[limbs]],"e":e}        add(m * 2^e)         *)
+(*   {"op":"batch","id":i,"fresh":b,"ord":o,"xs":[{"m","e"}..]}  collect/extend*)
+(*   {"op":"par","dst":i,"src":j}     parallel collect of the data of j    *)
 (*   {"op":"merge","dst":i,"src":j}  {"op":"clone","dst":i,"src":j}        *)
 (*   {"op":"serde","id":i}                   JSON round trip (stutters)    *)
 (*   {"op":"obs","id":i,"len":n,"st":{acc: V, .., "cm":[V..], "sm":[V..]}} *)
@@ -86,6 +88,34 @@ TClone == /\ IsEvent("clone") /\ Ev.src \in DOMAIN cnt
              /\ dlo' = Put(dlo, d, dlo[s]) /\ dhi' = Put(dhi, d, dhi[s]) /\ dom' = Put(dom, d, dom[s])
              /\ ord' = Put(ord, d, ord[s]) /\ ao' = Put(ao, d, ao[s])
           /\ UNCHANGED K
+
+\* collect / extend of a sequence (by value or by reference, any iterator shape): the add loop (Ingest.tla)
+RECURSIVE FoldAdds(_, _, _)
+FoldAdds(st, xs, j) ==
+    IF j > Len(xs) THEN st
+    ELSE LET x == QDy(xs[j].m, xs[j].e) IN
+         FoldAdds([c |-> st.c + 1, s |-> AddSums(st.s, PowersUpTo(x, K)), xm |-> QMax(st.xm, QAbs(x)),
+                   lo |-> IF st.c = 0 THEN x ELSE QMin(st.lo, x), hi |-> IF st.c = 0 THEN x ELSE QMax(st.hi, x),
+                   dom |-> st.dom /\ InDomain(x)], xs, j + 1)
+TBatch == /\ IsEvent("batch") /\ (Ev.fresh \/ Ev.id \in DOMAIN cnt)
+          /\ LET i == Ev.id
+                 s0 == IF Ev.fresh THEN [c |-> 0, s |-> ZeroSums(K), xm |-> QZero, lo |-> QZero, hi |-> QZero, dom |-> TRUE]
+                       ELSE [c |-> cnt[i], s |-> ps[i], xm |-> xm[i], lo |-> dlo[i], hi |-> dhi[i], dom |-> dom[i]]
+                 r == FoldAdds(s0, Ev.xs, 1) IN
+             /\ cnt' = Put(cnt, i, r.c) /\ ps' = Put(ps, i, r.s) /\ xm' = Put(xm, i, r.xm)
+             /\ dlo' = Put(dlo, i, r.lo) /\ dhi' = Put(dhi, i, r.hi) /\ dom' = Put(dom, i, r.dom)
+             /\ ord' = Put(ord, i, IF Ev.fresh THEN Ev.ord ELSE ord[i])
+             /\ ao' = Put(ao, i, IF Ev.fresh THEN TRUE ELSE ao[i])
+          /\ UNCHANGED K
+
+\* dst = the same data as src, collected from a PARALLEL iterator (rayon fold / reduce under some pool and
+\* splitting limits: Rayon.tla): the same multiset, built through merges
+TPar == /\ IsEvent("par") /\ Ev.src \in DOMAIN cnt
+        /\ LET d == Ev.dst  s == Ev.src IN
+           /\ cnt' = Put(cnt, d, cnt[s]) /\ ps' = Put(ps, d, ps[s]) /\ xm' = Put(xm, d, xm[s])
+           /\ dlo' = Put(dlo, d, dlo[s]) /\ dhi' = Put(dhi, d, dhi[s]) /\ dom' = Put(dom, d, dom[s])
+           /\ ord' = Put(ord, d, ord[s]) /\ ao' = Put(ao, d, cnt[s] <= 1)
+        /\ UNCHANGED K
 
 TSerde == IsEvent("serde") /\ Ev.id \in DOMAIN cnt /\ UNCHANGED <<K, cnt, ps, xm, dlo, dhi, dom, ord, ao>>
 
@@ -205,7 +235,7 @@ TObs == /\ IsEvent("obs") /\ Ev.id \in DOMAIN cnt
            /\ Chk(RangeOK(i, st), "range (C17)")
         /\ UNCHANGED <<K, cnt, ps, xm, dlo, dhi, dom, ord, ao>>
 
-TNext == TNew \/ TAdd \/ TMerge \/ TClone \/ TSerde \/ TObs \/ TRestart
+TNext == TNew \/ TAdd \/ TBatch \/ TPar \/ TMerge \/ TClone \/ TSerde \/ TObs \/ TRestart
 
 TSpec == TInit /\ [][TNext]_tvars
 
